@@ -11,7 +11,7 @@ use std::time::Instant;
 use tracing_core::dispatch::{DefaultGuard, Dispatch};
 use vcs::{Emitted, Fresh, Kind};
 use vlib::exec::Workers;
-use vlib::rec::{FilterCollector, Got, Shared, Spec};
+use vlib::rec::{FilterCollector, Got, Spec};
 use vlib::run::{self, Finish};
 use vlib::{json, Args, ChildSpec, Map, Mode, Out, Rng, Value};
 
@@ -232,9 +232,9 @@ fn history(
                 let arc = Arc::new(FilterCollector::new(cid, spec, flag));
                 let a2 = arc.clone();
                 let d = workers
-                    .run(t, move || Dispatch::new(Shared(a2)))
+                    .run(t, move || vlib::rec::dispatch_of(a2, cid))
                     .map_err(|p| ("panic in Dispatch::new".to_string(), witness(&ops, json!({"panic": p}))))?;
-                ops.push(format!("New(t{t}, c{} = {} flag={flag})", cols.len(), spec.code()));
+                ops.push(format!("New(t{t}, c{} = {} flag={flag}, handed to Dispatch::new as {})", cols.len(), spec.code(), vlib::rec::DISPATCH_HOW[(cid % 4) as usize]));
                 cols.push(CState {
                     arc,
                     handle: Some(d),
